@@ -1525,16 +1525,30 @@ func extSortSlice(fr *frame, args []value) value {
 	lt := func(i, j int) bool {
 		return fr.i.cond(call(fr.i, fr, token.NoPos, less, []value{i, j}))
 	}
+	stable := fr.i.sortStable
 	for i := 1; i < len(a); i++ {
 		for j := i; j > 0; j-- {
 			if lt(j, j-1) {
 				a[j], a[j-1] = a[j-1], a[j]
-			} else {
-				break
+				continue
 			}
+			// sort.Slice is not stable: elements that compare equal may end up in either order (pdqsort does
+			// reorder them from 13 elements on). Both orders are explored; sort.SliceStable keeps the order.
+			if !stable && !lt(j-1, j) && fr.i.x.decide([]string{"true", "true"}) == 1 {
+				a[j], a[j-1] = a[j-1], a[j]
+				continue
+			}
+			break
 		}
 	}
 	return nil
+}
+
+func extSortSliceStable(fr *frame, args []value) value {
+	old := fr.i.sortStable
+	fr.i.sortStable = true
+	defer func() { fr.i.sortStable = old }()
+	return extSortSlice(fr, args)
 }
 
 type nativeObj struct{ v interface{} }
